@@ -75,8 +75,7 @@ Definition judge_layout (c : layout_case) : Z :=
 Definition tonumpy_case := (list Z * list Z * list Z * list Z * list Z)%type.
 
 (* 0 ok | 1 the model of to_numpy disagrees with the implementation (shape or elements)
-   2 the result is not the array MLIR stores, involutive order (inside the proved domain)
-   3 the same for a non-involutive order (clause: to_numpy_noninvolutive_order) *)
+   2 the result is not the array MLIR stores *)
 Definition judge_tonumpy (c : tonumpy_case) : Z :=
   let '(order, sh, data, rsh, rflat) := c in
   let msh := to_numpy_shape order sh in
@@ -87,8 +86,7 @@ Definition judge_tonumpy (c : tonumpy_case) : Z :=
       zl_eqb sh rsh &&
       zl_eqb (map (fun ix => nthd 0 data (dense_pos order sh ix)) (all_indices sh)) rflat in
   if negb model_ok then 1
-  else if spec_ok then 0
-  else if involutive order then 2 else 3.
+  else if spec_ok then 0 else 2.
 
 (* ---------------------------------------------------------------- lifetimes *)
 Inductive instr :=
